@@ -206,6 +206,15 @@ fn generated() -> Vec<Proj> {
             }
         }
     }
+    // merc also accepts lat_0 (what it means for the northing is not specified, so only conformality, the
+    // scale on the equator and the round trip are judged for these)
+    for lat_0 in [1., -35.] {
+        for (scale, sl) in [("", ""), (" k_0=0.9996", " k_0"), (" lat_ts=56", " lat_ts")] {
+            for (o, ol) in offs {
+                v.push(p("merc", leak(format!("gen lat_0{sl}{ol}")), &format!("merc lat_0={lat_0} lon_0=9{scale}{o}"), 9., 0.));
+            }
+        }
+    }
     // tmerc / btmerc: lat_0 x lon_0 x k_0 x offsets
     for (op, lat0s, max_dlon, max_lat, class) in [("tmerc", vec![0., 3., -45., 89.], 30., 90., Class::Rigorous), ("btmerc", vec![0., 3., -45.], 3., 84., Class::Approximate)] {
         for &lat_0 in &lat0s {
@@ -270,11 +279,10 @@ fn generated() -> Vec<Proj> {
     // omerc: variant x centre x azimuth x offsets
     for (var, vl) in [("", "variant A"), (" variant", "variant B")] {
         for (latc, lonc) in [(4., 115.), (45., -86.), (-18.9, 46.437), (30., 10.), (-30., -60.)] {
-            // (azimuths in (90, 270) are not used: the Guidance Note's gamma_0 = asin(sin(alpha)/D) cannot represent them)
-            for alpha in [53.3158, -30., 18.9, 90., 337.25556] {
+            for alpha in [53.3158, -30., 18.9, 90., 337.25556, 91., 135., 200., -90.] {
                 for (o, ol) in offs {
                     let hl = if latc > 0. { "north" } else { "south" };
-                    let al = if alpha == 90. { "alpha=90".to_string() } else if alpha < 0. || alpha > 180. { "alpha west".to_string() } else if alpha > 90. { "alpha obtuse".to_string() } else { "alpha acute".to_string() };
+                    let al = if alpha == 90. { "alpha=90".to_string() } else if alpha == -90. { "alpha=-90".to_string() } else if alpha < 0. || alpha > 270. { "alpha west".to_string() } else if alpha > 180. { "alpha obtuse west".to_string() } else if false { "alpha west".to_string() } else if alpha > 90. { "alpha obtuse".to_string() } else { "alpha acute".to_string() };
                     let mut t = p("omerc", leak(format!("gen {vl} {hl} {al}{ol}")), &format!("omerc{var} latc={latc} lonc={lonc} alpha={alpha} gamma_c={alpha} k_0=0.9996{o}"), lonc, latc);
                     t.class = Class::Approximate;
                     t.max_dlon = 10.;
